@@ -488,10 +488,12 @@ def random_paths(rng):
         t = base + rng.randint(0, 3)
         p = []
         a = 1
+        # the statement is about any list of hops: one path in seven has instants that are not increasing
+        steps = [1, 1, 2, 3] if rng.random() < 0.85 else [-3, -2, -1, 0, 1, 2]
         for j in range(L):
             b = rng.randint(1, 5)
             p.append([a, b, t]); a = b
-            t += rng.choice([1, 1, 2, 3])
+            t += rng.choice(steps)
         paths.append(p)
     return paths
 
